@@ -90,7 +90,9 @@ Proof.
     destruct (cs_create _ _ _ _ _ _ _ _ _ _ _ CS) as (rest & cenv & c1 & lc1 & tmpv & c3 & lc3 & c5 & _ & _ & _ & _ & _ & ->).
     cbn [b_mark b_load_label rv_backend app r_load_label]. apply has_nz_app_r. apply has_nz_cons. cbn; lia.
   - destruct (cs_invoke _ _ _ _ _ _ _ _ _ _ CS) as (tmpv & d & _ & _ & _ & CD).
-    destruct (Nat.leb (List.length (txtors d)) 1); [subst code|destruct CD as (k & _ & ->)]; apply has_nz_cons; cbn; lia.
+    destruct (Nat.leb (List.length (txtors d)) 1); [subst code; apply has_nz_cons; cbn; lia|].
+    destruct CD as (k & _ & ->). cbn [b_mark b_add_and_jump rv_backend app]. unfold r_add_and_jump.
+    destruct (addi_fits _); apply has_nz_cons; [cbn; lia|apply isize_LI].
   - destruct (cs_literal _ _ _ _ _ _ _ _ _ CS) as (tv & c2 & _ & _ & ->). apply has_nz_cons. apply isize_LI.
   - destruct (cs_op _ _ _ _ _ _ _ _ _ _ _ CS) as (tv & ta & tb & c2 & _ & _ & _ & _ & ->). destruct o; apply has_nz_cons; cbn; lia.
   - cbn [stmt_h] in FR. discriminate.
